@@ -2,6 +2,7 @@ import BlockModes.Glue.Wrapper
 import BlockModes.Impl.Ctr
 import BlockModes.Impl.Belt
 import BlockModes.Lemmas.Codec
+import BlockModes.Lemmas.CoreInst
 /-
   C11 — a keystream never wraps around silently.
   (this section) `remaining_blocks` is exact; an error leaves data and state untouched; counter blocks
@@ -99,5 +100,60 @@ theorem seek_past_end_wraps_counter :
     tinyCore.getPos ((Wr.fromCore tinyCore 0).seek tinyCore (255 * 4 + 1)).2.core = 0 ∧
     (((Wr.fromCore tinyCore 0).seek tinyCore (255 * 4 + 1)).2.apply tinyCore 1 [0, 0, 0, 0, 0, 0, 0]).isSome = true := by
   decide
+
+/-! ### the decision: a request succeeds exactly when it ends at or before the limit -/
+
+/-- **CTR**: from any state satisfying the wrapper invariant at byte position `q`, a request of `n < 2^64` bytes
+    returns `Ok` iff `q + n ≤ (2^w − 1)·bs`; in particular one ending exactly at the limit succeeds and one
+    byte more fails. On `Ok` the output is data ⊕ keystream[q, q+n) and the position advances by `n`. -/
+theorem ctr_apply_ok_iff_fits (C : Cipher) (hC : C.Valid) (hbs : C.bs < 256) (f : Flavor) (hw : f.w = 8 * f.cs)
+    (hcs : 0 < f.cs) (k : Nat) (hk : 0 < k) (iv : Bytes) (hiv : iv.length = k * f.cs) (hblk : C.bs = k * f.cs)
+    (w : Nat) (s : Wr Ctr.St) (blk : Nat) (hI : WInv (Ctr.core C f) (ctrKs C f iv) (ctrRep f iv) s blk)
+    (data : Bytes) (hn : data.length < 2 ^ 64) :
+    ((s.apply (Ctr.core C f) w data).isSome = true ↔ s.q (Ctr.core C f) blk + data.length ≤ (2 ^ f.w - 1) * C.bs) ∧
+    (∀ r, s.apply (Ctr.core C f) w data = some r →
+      r.1 = xorB data (ksBytes (ksByte C.bs (ctrKs C f iv)) (s.q (Ctr.core C f) blk) data.length)) := by
+  have hK := ctr_coreSpec C hC hbs f hw hcs k hk iv hiv hblk
+  have hS := ctr_seekSpec C f iv
+  have hiff := checkRemaining_iff hK hS s blk data.length hI hn
+  constructor
+  · unfold Wr.apply
+    cases hc : s.checkRemaining (Ctr.core C f) data.length
+    · simp only [Bool.false_eq_true, if_false, Option.isSome_none, false_iff]
+      intro h; rw [hiff.mpr h] at hc; cases hc
+    · simp only [if_true, Option.isSome_some, true_iff]; exact hiff.mp hc
+  · intro r hr
+    unfold Wr.apply at hr
+    cases hc : s.checkRemaining (Ctr.core C f) data.length
+    · rw [hc] at hr; simp at hr
+    · rw [hc] at hr
+      simp only [if_true, Option.some.injEq] at hr
+      rw [← hr]
+      exact (apply_spec hK w s blk data hI (Or.inr (hiff.mp hc))).1
+
+/-- **BelT-CTR**: the same with the limit `2^128 − 1` blocks. -/
+theorem belt_apply_ok_iff_fits (C : Cipher) (hC : C.Valid) (hbs : C.bs = 16) (iv : Bytes) (hiv : iv.length = 16)
+    (w : Nat) (s : Wr Belt.St) (blk : Nat) (hI : WInv (Belt.core C) (beltKs C iv) (beltRep C iv) s blk)
+    (data : Bytes) (hn : data.length < 2 ^ 64) :
+    (s.apply (Belt.core C) w data).isSome = true ↔ s.q (Belt.core C) blk + data.length ≤ (2 ^ 128 - 1) * C.bs := by
+  have hs0 := C06.beltS0_lt C hC hbs iv hiv
+  have hK := belt_coreSpec C hC hbs iv
+  have hS := belt_seekSpec C iv hs0
+  have hiff := checkRemaining_iff hK hS s blk data.length hI hn
+  unfold Wr.apply
+  cases hc : s.checkRemaining (Belt.core C) data.length
+  · simp only [Bool.false_eq_true, if_false, Option.isSome_none, false_iff]
+    intro h; rw [hiff.mpr h] at hc; cases hc
+  · simp only [if_true, Option.isSome_some, true_iff]; exact hiff.mp hc
+
+/-- **no reuse (partial: histories whose seeks stay inside the keystream)**: by `C10.ctr_ops_coherent` every
+    successful request at byte position `q` is XORed with keystream bytes `q…` of the documented keystream,
+    every request that would pass block `2^w − 2` fails, and counter blocks of distinct in-range indices are
+    distinct (`ctrBlock_injective`) — so no counter value serves two positions.  The unrestricted statement
+    (seek targets in the never-to-be-produced last block allowed) is FALSE of the dependency's wrapper:
+    `seek_past_end_wraps_counter` above is the machine-checked witness (finding F2). -/
+theorem no_reuse_partial (f : Flavor) (hw : f.w = 8 * f.cs) (iv : Bytes) (i j : Nat)
+    (hi : i < 2 ^ f.w - 1) (hj : j < 2 ^ f.w - 1) (hne : i ≠ j) : ctrBlock f iv i ≠ ctrBlock f iv j :=
+  fun h => hne (ctrBlock_injective f hw iv i j (by omega) (by omega) h)
 
 end Thm.C11
